@@ -19,9 +19,14 @@ of the stated shape / all values of the type:
            of the documented number formats; and
   rt       DecodeInteger(that text) == x, for every x of the type
 
-The structure level of C06 (WriteToString / UpdateFromText of whole views:
-std::ostringstream, std::string growth, virtual dispatch) is outside what the
-translator can execute and is NOT claimed -- see DESIGN.md.
+A second layer (vf/checks/c06s.py, E1) decides the clause "fields marked Skip
+are absent and fields marked Emit are present" where that decision is taken --
+in the compiler -- with the attribute value as a symbolic choice.
+
+The rest of the structure level of C06 (WriteToString / UpdateFromText of whole
+views reading back equal: std::ostringstream, std::string growth, virtual
+dispatch) is outside what the translator can execute and is NOT claimed -- see
+DESIGN.md.
 """
 
 import json
@@ -671,6 +676,10 @@ def main(tier):
             rep.violation(key, observed, c)
     if stats["witnesses"] == 0:
         rep.harness_error("no reachability witness (vacuous)")
+    # clause "fields marked Skip are absent and fields marked Emit are present": decided in the compiler (E1)
+    from vf.checks import c06s
+    text_output = c06s.run(rep)
+    replayed += text_output["text_output_replayed"]
     stats["solver_s"] = round(stats["solver_s"], 1)
     rep.coverage.update({
         "states": stats["decode_jobs"] + stats["roundtrip_jobs"],
@@ -681,6 +690,7 @@ def main(tier):
                               "for T in uint8_t..int64_t (clang -O2 LLVM IR)"],
         "candidates_classified": seen,
         "stats": stats,
+        "text_output_layer": text_output,
         "slowest_jobs": sorted(slow, reverse=True)[:8],
         "bounds": {
             "decode_all_texts_up_to": "%d characters (every byte value), each of the 8 integer types" % (6 if tier == "quick" else 7),
@@ -709,7 +719,12 @@ def main(tier):
 def replay_file(path):
     with open(path) as f:
         obj = json.load(f)
-    ok, observed = replay(obj["replay"])
+    if obj["replay"].get("kind") == "text_output":
+        from vf.checks import c06s
+        r = obj["replay"]
+        ok, observed = c06s.replay({"kind": r["field_kind"], "attr": r["attr"], "expected": r["expected"]})
+    else:
+        ok, observed = replay(obj["replay"])
     print("replay %s: %s -> %s" % (path, "REPRODUCED" if ok else "did not reproduce", observed))
     if ok:
         print("VIOLATION property=C06 replay=%s" % path)
